@@ -389,6 +389,37 @@ func genConc(r *lib.Rng, tier string) *Case {
 		}
 		emit(Op{K: "array", Xs: xs, Spare: spare(r)})
 	}
+	// A merged reader delivers an interleaving of the strands of its sources, and the strands multiply
+	// along chains copy -> merge -> copy -> merge. Whether a history is an interleaving of given strands
+	// is decided by the model with a sweep over sets of position vectors (Model/StreamIlv.v): linear
+	// for strands without common values, but exponential in the number of places one value occurs at
+	// (25 copies of a strand that holds 501 three times - three copies of one array merged into one
+	// stream, merged, copied, merged again ...: more than 15 minutes; 7 copies: 0.2 s). A merge whose
+	// result would have more than maxStrands strands, or in whose strands some value would occur more
+	// than maxOcc times (copies counted; one stand-in value per pipe), takes fewer readers or is not made.
+	const maxStrands, maxOcc = 32, 8
+	within := func(hs []int) bool {
+		tot := 0
+		occ := map[string]int{}
+		for _, h := range hs {
+			tot += sh.cur(h).occ(occ)
+		}
+		for _, n := range occ {
+			if n > maxOcc {
+				return false
+			}
+		}
+		return tot <= maxStrands
+	}
+	fit := func(hs []int) []int { // the longest prefix of hs (at least 2 readers) within the bounds
+		for len(hs) >= 2 && !within(hs) {
+			hs = hs[:len(hs)-1]
+		}
+		if len(hs) < 2 {
+			return nil
+		}
+		return hs
+	}
 	wide := r.Chance(1, 8) // a merge of more than maxSelectNum streams (reflect.Select path)
 	// ... and one of 4-5 streams (the largest select statements of receiveN, next to the threshold)
 	mid := !wide && r.Chance(1, 8)
@@ -406,7 +437,9 @@ func genConc(r *lib.Rng, tier string) *Case {
 				if n > len(live) {
 					n = len(live)
 				}
-				emit(Op{K: "merge", Hs: pickN(r, live, n), Via: via(r)})
+				if hs := fit(pickN(r, live, n)); hs != nil {
+					emit(Op{K: "merge", Hs: hs, Via: via(r)})
+				}
 			}
 		}
 	}
@@ -423,7 +456,20 @@ func genConc(r *lib.Rng, tier string) *Case {
 		if n > len(live) {
 			n = len(live)
 		}
-		emit(Op{K: "merge", Hs: pickN(r, live, n)})
+		if hs := fit(pickN(r, live, n)); hs != nil {
+			emit(Op{K: "merge", Hs: hs})
+		}
+	}
+	// one case in 3: the last 1-3 constructor calls (never a source) are made while the ends are driven
+	nsrc := 0
+	for nsrc < len(c.Ops) && (c.Ops[nsrc].K == "pipe" || c.Ops[nsrc].K == "array") {
+		nsrc++
+	}
+	if k := len(c.Ops) - nsrc; k > 0 && r.Chance(1, 3) {
+		if k > 3 {
+			k = 3
+		}
+		c.Lazy = 1 + r.Intn(k)
 	}
 	for _, h := range liveHandles(sh, nil) {
 		mx := -1
@@ -431,6 +477,18 @@ func genConc(r *lib.Rng, tier string) *Case {
 			mx = []int{0, 0, 1, 2, 3, 5}[r.Intn(6)]
 		}
 		c.Leaves = append(c.Leaves, Leaf{H: h, Max: mx})
+	}
+	// pipeOcc: the largest number of strands of one leaf that derive from pipe hp
+	pipeOcc := func(hp int) int {
+		m := 0
+		for _, l := range c.Leaves {
+			occ := map[string]int{}
+			sh.cur(l.H).occ(occ)
+			if n := occ["p"+itoa(hp)]; n > m {
+				m = n
+			}
+		}
+		return m
 	}
 	var hps []int
 	for hp := range sh.pipes {
@@ -445,8 +503,8 @@ func genConc(r *lib.Rng, tier string) *Case {
 		w := Writer{HP: hp, Items: []Item{}}
 		for i := 0; i < n; i++ {
 			x := Item{V: uint64(hp*100 + i + 1), Err: r.Chance(1, 8)}
-			if !x.Err && r.Chance(1, 12) {
-				x.V = 0 // the zero value is a chunk like any other
+			if !x.Err && r.Chance(1, 12) && pipeOcc(hp) <= 3 {
+				x.V = 0 // the zero value is a chunk like any other (a repeated value: see maxOcc)
 			}
 			w.Items = append(w.Items, x)
 		}
